@@ -71,11 +71,28 @@ structure Gen (S V : Type) where
   lastTime : Option TimeV          -- _Dynamic_time; none = the marker `_NO_TIME`, unequal to every time
   saved : List (Option V × Option TimeV)
   fail : Option (Nat × Exc) := none   -- a fault: the k-th call (0-based) raises instead of returning
+  explicitTf : Bool := false          -- constructed with `time_fn=T` (T = the global Time object)
+  frozen : Option TimeV := none       -- a deep copy of such a generator owns a copy of T, stopped at this time
   deriving DecidableEq, Repr
 
 /-- src: param/parameters.py Dynamic._initialize_generator -/
-def Gen.fresh {S V} (k : GenKind) (fail : Option (Nat × Exc) := none) : Gen S V :=
-  { kind := k, calls := 0, last := none, lastTime := none, saved := [], fail := fail }
+def Gen.fresh {S V} (k : GenKind) (fail : Option (Nat × Exc) := none) (tf : Bool := false) : Gen S V :=
+  { kind := k, calls := 0, last := none, lastTime := none, saved := [], fail := fail, explicitTf := tf }
+
+/-- `copy.deepcopy(generator)` (instantiation of a Parameter default): a `time_fn` that was given to the
+constructor is a parameter value of the generator and is copied with it — the copy's clock stays at the
+time of the copy; without an explicit `time_fn` the generator looks the global Time object up on its class.
+src: param/parameterized.py Parameters._instantiate_param; numbergen/__init__.py TimeAware.time_fn -/
+def Gen.copyAt {S V} (now : TimeV) (g : Gen S V) : Gen S V :=
+  { g with frozen := match g.frozen with
+      | some f => some f
+      | none => if g.explicitTf then some now else none }
+
+/-- the time the generator itself sees (`self.time_fn()`) when the global clock shows `now` -/
+def Gen.ownTime {S V} (g : Gen S V) (now : TimeV) : TimeV :=
+  match g.frozen with
+  | some f => f
+  | none => now
 
 /-- src: param/parameters.py Dynamic._initialize_generator (on an existing callable) -/
 def Gen.reinit {S V} (g : Gen S V) : Gen S V :=
@@ -124,7 +141,7 @@ inductive Target where
   deriving DecidableEq, Repr
 
 inductive Src where
-  | fresh (k : GenKind) (fail : Option (Nat × Exc) := none)
+  | fresh (k : GenKind) (fail : Option (Nat × Exc) := none) (tf : Bool := false)
   | existing (g : Nat)
   | const (v : Int)
   deriving DecidableEq, Repr
@@ -179,11 +196,11 @@ def Gen.produce (env : Env H S V) (g : Gen S V) (now : TimeV) : V × Gen S V :=
   match g.kind with
   | .td name seed =>
     -- `_hash_and_seed()`: whatever state the stream was in, it is re-seeded from (name, seed, now)
-    let r := env.next (env.reseed (env.hash name seed now))
+    let r := env.next (env.reseed (env.hash name seed (g.ownTime now)))
     (r.1, { g with calls := g.calls + 1, rng := some r.2 })
   | .sampled name seed period offset =>
     -- the wrapped function is called at the sample time (inside `with time_fn`)
-    let r := env.next (env.reseed (env.hash name seed (sampleTime now period offset)))
+    let r := env.next (env.reseed (env.hash name seed (sampleTime (g.ownTime now) period offset)))
     (r.1, { g with calls := g.calls + 1, rng := some r.2 })
   | .stream sid =>
     let r := env.next (match g.rng with | some st => st | none => env.init sid)
@@ -291,26 +308,27 @@ def popGens : List Nat → List (Gen S V) → Res V × List (Gen S V)
 
 /-- src: param/parameterized.py Parameters._setup_params / _instantiate_param: deep copy of every
 callable default (cache attributes included), other values stay on the class -/
-def instantiate : List Slot → List (Gen S V) → List Slot × List (Gen S V)
+def instantiate (now : TimeV) : List Slot → List (Gen S V) → List Slot × List (Gen S V)
   | [], hp => ([], hp)
   | s :: ss, hp =>
     match s with
     | .gen g =>
       match hp[g]? with
-      | some x => (.gen hp.length :: (instantiate ss (hp ++ [x])).1, (instantiate ss (hp ++ [x])).2)
-      | none => (.inherit :: (instantiate ss hp).1, (instantiate ss hp).2)
-    | _ => (.inherit :: (instantiate ss hp).1, (instantiate ss hp).2)
+      | some x =>
+        (.gen hp.length :: (instantiate now ss (hp ++ [x.copyAt now])).1, (instantiate now ss (hp ++ [x.copyAt now])).2)
+      | none => (.inherit :: (instantiate now ss hp).1, (instantiate now ss hp).2)
+    | _ => (.inherit :: (instantiate now ss hp).1, (instantiate now ss hp).2)
 
 /-- the value being assigned: a new generator object, one that already exists, or a plain number.
 src: param/parameters.py Dynamic.__set__ -> _initialize_generator(val, obj) -/
 def srcSlot (w : World S V) : Src → Option (Slot × List (Gen S V))
   | .const v => some (.const v, w.gens)
-  | .fresh (.td n s) f =>
+  | .fresh (.td n s) f tf =>
     -- numbergen TimeAware._check_time_fn asserts that Dynamic.time_dependent is on
-    if w.dynTD then some (.gen w.gens.length, w.gens ++ [Gen.fresh (.td n s) f]) else none
-  | .fresh (.sampled n s p o) f =>
-    if w.dynTD then some (.gen w.gens.length, w.gens ++ [Gen.fresh (.sampled n s p o) f]) else none
-  | .fresh (.stream sid) f => some (.gen w.gens.length, w.gens ++ [Gen.fresh (.stream sid) f])
+    if w.dynTD then some (.gen w.gens.length, w.gens ++ [Gen.fresh (.td n s) f tf]) else none
+  | .fresh (.sampled n s p o) f tf =>
+    if w.dynTD then some (.gen w.gens.length, w.gens ++ [Gen.fresh (.sampled n s p o) f tf]) else none
+  | .fresh (.stream sid) f tf => some (.gen w.gens.length, w.gens ++ [Gen.fresh (.stream sid) f tf])
   | .existing g =>
     match w.gens[g]? with
     | none => none
@@ -376,8 +394,8 @@ def runOp (env : Env H S V) : Op → World S V → Res V × World S V
       ((popGens gs w.gens).1, { w with gens := (popGens gs w.gens).2 })
   | .assign tg p src, w => assignSlot w tg p src
   | .newInst, w =>
-    (.ok .unit, { w with gens := (instantiate w.defaults w.gens).2,
-                         insts := w.insts ++ [(instantiate w.defaults w.gens).1] })
+    (.ok .unit, { w with gens := (instantiate w.clock.time w.defaults w.gens).2,
+                         insts := w.insts ++ [(instantiate w.clock.time w.defaults w.gens).1] })
   | .raise e, w => (.raised e, w)
   | .ctx body, w =>
     -- __enter__; body; __exit__ runs on every path out of the block
@@ -413,6 +431,7 @@ inductive EvKind where
 structure Touched where
   g : Nat
   kind : GenKind
+  own : Bool := false        -- the generator's `time_fn` is not the global Time object (a per-instance copy)
   deriving DecidableEq, Repr
 
 def Target.tag : Target → String
@@ -443,7 +462,7 @@ def cachesOf (w : World S V) : List (Option V × Option TimeV × Nat) :=
 def touchedOf (w : World S V) : Op → Option Touched
   | .read tg p | .inspect tg p | .force tg p =>
     match resolve w tg p with
-    | some (.gen g) => (w.gens[g]?).map fun x => { g := g, kind := x.kind }
+    | some (.gen g) => (w.gens[g]?).map fun x => { g := g, kind := x.kind, own := x.frozen.isSome }
     | _ => none
   | _ => none
 
